@@ -323,6 +323,9 @@ class Ctx:
                 rep = json.load(open(outp))
             except Exception as ex:  # truncated report
                 rep = {"_badjson": str(ex)}
+        for kk in ("violations", "inconclusive", "samples"):
+            if rep.get(kk) is None and ("cases" in rep or kk != "samples"):
+                rep[kk] = []
         rep["_exit"] = code
         rep["_stdout"] = stdout
         rep["_wall"] = time.time() - t
@@ -340,6 +343,53 @@ class Ctx:
         for s in rep.get("inconclusive", []):
             self.inconclusive.append("%s: %s" % (nm, s))
         return rep
+
+    def go_engine_resilient(self, pkg, run, env, ext_out=None, crash_key="server-crash", max_restarts=25, **kw):
+        """Run an engine whose subject (the server under test) may panic and kill the test process.
+        The engine records the id of the case it is running in $VERIF_PROGRESS and appends its
+        outputs when restarted with VERIF_START=<id+1>.  Every crash is registered as a violation
+        `<crash_key>:<innermost go9p function>`; returns (last report, list of crashes)."""
+        prog = self.path("progress-%s" % hashlib.md5((pkg + run + str(time.time())).encode()).hexdigest()[:8])
+        env = dict(env)
+        env["VERIF_PROGRESS"] = prog
+        crashes = []
+        total_cases = 0
+        rep = {}
+        start = 0
+        for attempt in range(max_restarts + 1):
+            if start:
+                env["VERIF_START"] = str(start)
+            rep = self.go_engine(pkg, run, env=env, allow_crash=True, **kw)
+            total_cases += int(rep.get("cases", 0) or 0)
+            if rep["_exit"] == 0 and "cases" in rep:
+                break
+            out = rep.get("_stdout", "")
+            case = None
+            try:
+                case = int(open(prog).read().strip())
+            except (OSError, ValueError):
+                pass
+            m = re.search(r"^(panic: .*|fatal error: .*)$", out, re.M)
+            if not m or case is None:
+                self.log("engine output tail:\n" + "\n".join(out.splitlines()[-40:]))
+                self.inconclusive.append("engine %s died without a panic attributable to a case (exit %s)" % (run, rep["_exit"]))
+                break
+            fn = "?"
+            for fm in re.finditer(r"^github\.com/rminnich/go9p\.([^\s(]*(?:\([^)]*\))?[^\s(]*)\(", out[m.start():], re.M):
+                fn = fm.group(1)
+                break
+            crashes.append({"case": case, "panic": m.group(1)[:200], "func": fn})
+            self.log("server under test crashed in case %s: %s in %s" % (case, m.group(1)[:120], fn))
+            if ext_out:
+                with open(ext_out, "a") as f:
+                    f.write(json.dumps({"ev": "reset", "case": case}) + "\n")
+                    f.write(json.dumps({"ev": "crash", "what": m.group(1)[:200], "func": fn}) + "\n")
+            start = case + 1
+        else:
+            self.inconclusive.append("engine %s crashed more than %d times" % (run, max_restarts))
+        rep["cases_total"] = total_cases + len(crashes)
+        rep["crashes"] = crashes
+        return rep, crashes
 
     # ------------------------------------------------------------ verdicts
     def violation(self, key, what, replay=None):
